@@ -1034,6 +1034,8 @@ def expected_format(cls, request, target):
 FORMAT_FORMULAS = [
     {'steps': [['var', 'X'], ['block', [2], 'z_{{{}}}'], ['cl', [1, -2]], ['cl', [-3, 2]], ['cl', []]]},
     {'steps': []},
+    # names that are not ASCII: two distinct variables stay distinct in every target
+    {'steps': [['var', '\u03b1'], ['var', '\u03b2_\u00e9'], ['var', 'x'], ['cl', [1, -2]], ['cl', [-1, 2, 3]]]},
 ]
 
 
